@@ -145,7 +145,12 @@ pub fn run_plan<V: Variant>(plan: &WorldPlan, keys: Keys<V>, with_children: bool
         };
         for (i, r) in ops.iter().enumerate() {
             st.evaluations += 1;
-            log = crate::rng::hash_u64(log, r.digest());
+            // signatures made with the real thread_rng (mode E5) are not reproducible
+            // by design and stay out of the event log; everything else goes in
+            let real_entropy = matches!(&plan.threads[t][i], Op::Sign { mode: None, .. });
+            if !real_entropy {
+                log = crate::rng::hash_u64(log, r.digest());
+            }
             match (&plan.threads[t][i], r) {
                 (Op::Keygen { seed, ambient }, OpResult::Key { sk, pk, trace, preempted }) => {
                     st.inc("keygen.calls");
@@ -433,6 +438,12 @@ fn dispatch(ctx: &Ctx, seed: u64, run: u64) -> RunOutcome {
     } else {
         go::<V512>(seed, run, &ctx.p512.keys[0], ctx.s512, ctx.o512)
     }
+}
+
+pub fn runner(tier: Tier, seed: u64) -> Option<(u64, Box<dyn Fn(u64) -> RunOutcome + Sync>)> {
+    let ctx = context(tier, seed).ok()?;
+    let n = ctx.r512 + ctx.r1024;
+    Some((n, Box::new(move |run| dispatch(&ctx, seed, run))))
 }
 
 pub fn rerun(tier: Tier, seed: u64, run: u64) -> Option<RunOutcome> {
